@@ -6,7 +6,7 @@ set -u
 SID=$1; DIR=$2; shift 2; CHECKS="$@"
 R=/tmp/w/main_repo
 LOG=/tmp/sp/seed_$SID.log; : > $LOG
-cd $R && git checkout -q -- . && git checkout -q --detach $(git -C /repo rev-parse HEAD) >>$LOG 2>&1
+cd $R && git reset -q --hard >>$LOG 2>&1; git checkout -q --detach $(git -C /repo rev-parse HEAD) >>$LOG 2>&1; git reset -q --hard >>$LOG 2>&1
 INC="-I$R/_build/include -I$R/_build/src/export -I$R/src/alpaqa/include -I$R/src/interop/dl/include -I$R/src/interop/dl-api/include -isystem /usr/include/eigen3"
 build() { cmake --build $R/_build -j12 --target tests >>$LOG 2>&1; }
 demo() { g++ -std=c++23 -O1 -DNDEBUG -DALPAQA_WITH_OCP -DEIGEN_DONT_PARALLELIZE $INC $DIR/demo.cpp $R/_build/src/libalpaqa_rd.a $R/_build/src/libalpaqa-dl-loader_rd.a -ldl -o /tmp/sp/demo_$SID >>$LOG 2>&1 || g++ -std=c++23 -O1 -DNDEBUG -DALPAQA_WITH_OCP -DEIGEN_DONT_PARALLELIZE $INC $DIR/demo.cpp $R/_build/src/libalpaqa_rd.a -ldl -o /tmp/sp/demo_$SID >>$LOG 2>&1 || return 99; (cd $DIR && timeout 900 /tmp/sp/demo_$SID) >>$LOG 2>&1; }
@@ -24,5 +24,5 @@ for c in $CHECKS; do
   RES="$RES{\"check\":\"$c\",\"rc\":$rc,\"violations\":$nv,\"no_failing_input\":$nf,\"first_replay\":\"$first\"},"
   echo "$out" >> $LOG
 done
-git -C $R checkout -q -- . ; git -C $R clean -fdq -e _build >>$LOG 2>&1
+git -C $R reset -q --hard; git -C $R clean -fdq -e _build >>$LOG 2>&1
 echo "{\"seed\":\"$SID\",\"build_before\":$B0,\"demo_before\":$D0,\"patch_applies\":$AP,\"build_after\":$B1,\"ctest_after\":$T1,\"demo_after\":$D1,\"checks\":[${RES%,}]}"
